@@ -34,9 +34,9 @@ def n_cases(tier):
 
 
 def gen_case(rng, tier, idx):
-    n = rng.choice([0, 1, 2, 3, 5, 8, 9, 12, 16, 17, 24, 33, 40])
+    n = rng.choice([0, 1, 2, 3, 5, 8, 9, 12, 16, 17, 24, 33, 40, 41, 64, 65, 72])
     return {"n": n, "triggers": [rng.choice(["level", "rise", "fall"]) for _ in range(n)],
-            "dw": rng.choice([8, 8, 16, 32]), "al": rng.choice([0, 0, 1, 2, 3]),
+            "dw": rng.choice([8, 8, 16, 32, 64, 4]), "al": rng.choice([0, 0, 1, 2, 3, 4]),
             "attach": ["direct", "decoder", "connect"][idx % 3], "mon_trigger": rng.choice(["level", "rise", "fall"]),
             "cycles": 350 if tier == "quick" else 900}
 
